@@ -10,7 +10,6 @@ import (
 	"os"
 	"reflect"
 	"sort"
-	"strconv"
 	"strings"
 	"time"
 	"unicode/utf8"
@@ -170,7 +169,7 @@ func init() {
 		return nil
 	}
 	verifRT["verifObserve"] = func(fr *frame, fn *ssa.Function, args []value) value {
-		fr.i.p.observed = append(fr.i.p.observed, args[0].(string)+"="+strconv.Quote(fr.i.render(fr, args[1])))
+		fr.i.p.observedRaw = append(fr.i.p.observedRaw, observedVal{args[0].(string), args[1]})
 		return nil
 	}
 	verifRT["verifSymbolic"] = func(fr *frame, fn *ssa.Function, args []value) value {
